@@ -182,13 +182,7 @@ class Tracker:
         for k in [k for k, v in self.byname.items() if v == reg]:
             del self.byname[k]
 
-    def run_done(self, clock, loaded=True, suppressed=False):
-        if suppressed and loaded:
-            # the scheduling user is ignored and the plugin checks that: due one-shots fired, their effect was suppressed
-            for c in self.cmds.values():
-                if c['kind'] == 'single' and not c['removed'] and not c['runs'] and c['due'] < clock:
-                    c['removed'] = True      # must never run later
-                    c['suppressed'] = True
+    def run_done(self, clock):
         for reg, p in sorted(self.pending.items()):
             if p['due'] < clock:
                 self.fail('event reg %d due %d has not run when run() returned at clock %d' % (reg, p['due'], clock))
@@ -605,7 +599,10 @@ class PTracker:
         c['runs'].append((clock, self.epoch))
         c['run_ids'].append(runid)
 
-    def run_done(self, clock, loaded=True, suppressed=False):
+    def run_done(self, clock, loaded=True, suppressed=False, listed=()):
+        for cmd, c in sorted(self.cmds.items()):
+            if loaded and c['kind'] == 'bad' and not c['removed'] and c['due'] < clock and cmd in listed:
+                self.fail('event C%d (its command does not tokenize) was due at %d, has fired, and is still listed at clock %d' % (cmd, c['due'], clock))
         if suppressed and loaded:
             # the scheduling user is ignored and the plugin checks that: due one-shots fired, their effect was suppressed
             for c in self.cmds.values():
@@ -674,13 +671,19 @@ def run_plugin(ops):
             k = o[0]
             st = _StubIrc()
             try:
-                if plug is None and k in ('padd', 'premind', 'prepeat', 'premove', 'reload', 'unload'):
-                    if k in ('padd', 'premind', 'prepeat'):
+                if plug is None and k in ('padd', 'paddbad', 'premind', 'prepeat', 'premove', 'reload', 'unload'):
+                    if k in ('padd', 'paddbad', 'premind', 'prepeat'):
                         ncmd[0] += 1                       # the model numbers requests by position
-                elif k in ('padd', 'premind'):
+                elif k in ('padd', 'paddbad', 'premind'):
                     c = ncmd[0]
                     ncmd[0] += 1
-                    if k == 'padd':
+                    if k == 'paddbad':
+                        # a command that does not tokenize: SyntaxError inside the scheduled function
+                        plug.add(st, msg, [str(o[1]), 'echo [oops C%d' % c])
+                        if 'ok' in st.out:
+                            tr.added(c, 'bad', clock[0] + o[1], told=max(plug.events, key=lambda k: int(k) if k.isdigit() else -1))
+                        st.out = []
+                    elif k == 'padd':
                         plug.add(st, msg, [str(o[1]), 'echo C%d' % c])
                     else:
                         plug.remind(st, msg, [str(o[1]), 'C%d' % c])
@@ -760,7 +763,8 @@ def run_plugin(ops):
                     runid[0] += 1
                     S.run()
                     drain()
-                    tr.run_done(clock[0], plug is not None, ignored[0] and checks_ignored)   # while the plugin is unloaded its own events wait
+                    tr.run_done(clock[0], plug is not None, ignored[0] and checks_ignored,
+                                listed=[int(ev['command'].split('C')[1]) for ev in plug.events.values()] if plug is not None else ())   # while the plugin is unloaded its own events wait
             except Exception as e:
                 if type(e).__name__ not in ('Error', 'AssertionError'):
                     tr.fail('%s raised %s: %s' % (k, type(e).__name__, e))
@@ -800,6 +804,8 @@ def w_pop(o):
         return [3, w_name(o[1])]
     if k == 'ignore':
         return [10, 1 if o[1] else 0]
+    if k == 'paddbad':
+        return [11, o[1]]
     return {'reload': [4], 'restart': [5], 'run': [7], 'unload': [8], 'load': [9]}.get(k) or [6, o[1]]
 
 
@@ -811,7 +817,9 @@ def g_plugin_history(rng, foreign=False):
     ops = []
     for _ in range(rng.randint(3, 12)):
         r = rng.random()
-        if r < 0.22:
+        if r < 0.03:
+            ops.append(['paddbad', rng.choice([1, 2, 5])])
+        elif r < 0.22:
             ops.append(['padd', rng.choice([1, 2, 3, 5, 8, 20])])
         elif r < 0.32:
             ops.append(['premind', rng.choice([1, 2, 4, 9])])
@@ -854,6 +862,8 @@ PCORPUS = [
     # the scheduling user is ignored when the events come due: they fire (leave the list), their effect is suppressed,
     # and they do not run later when the ignore is lifted; a repeat goes on and runs again afterwards
     [['padd', 2], ['premind', 3], ['prepeat', 0, 4, 0], ['ignore', 1], ['adv', 5], ['run'], ['ignore', 0], ['adv', 5], ['run'], ['reload'], ['adv', 9], ['run']],
+    # witness of C18.F27 (fixed): a command that does not tokenize: it fires once (SyntaxError), leaves the list, is not rescheduled
+    [['paddbad', 2], ['padd', 3], ['adv', 4], ['run'], ['reload'], ['adv', 1], ['run'], ['restart'], ['adv', 1], ['run']],
     # witness of C18.F25 (fixed): the bot restarts without the plugin, another plugin's event gets id 0, the plugin is
     # loaded: its own pickled event #0 must be scheduled (under a new id) and `scheduler remove 0` must not hit the other one
     [['padd', 50], ['newproc'], ['foreign', 100], ['load'], ['premove', ['a', 0]], ['adv', 200], ['run']],
